@@ -126,7 +126,7 @@ class C11(Config):
     corr_targets = ["C11/Corr.vo", "C11/Wf.vo"]
     audit_dirs = ["Lib", "C11"]
     header = ("From V.Lib Require Import Base Hex.\n"
-              "From V.C11 Require Import Model Spec Tab Eqb Legacy CorrLegacy Gap CorrGap Corr Wf.\n"
+              "From V.C11 Require Import Model Spec Tab Eqb Legacy CorrLegacy Gap CorrGap Extra CorrExtra Corr Wf.\n"
               "Local Open Scope N_scope.")
     bin = "c11"
     release_too = False
@@ -137,7 +137,10 @@ class C11(Config):
             "reachable through the public constructors; diversifier indices from a boundary lattice (0, Sapling-invalid, "
             "2^31-1, 2^31, 2^32, 2^88-1) plus random; all 27 requirement triples plus AllAvailableKeys; every public function of "
             "zcash_keys::encoding on all three networks (own HRP, every other HRP, malformed strings); gap_limits address lists "
-            "over scopes 0..3/9, empty, inverted and top-of-space ranges with a mock address store; a malformed stream "
+            "over scopes 0..3/9, empty, inverted and top-of-space ranges with a mock address store; unified addresses built from "
+            "raw receivers (P2PKH / P2SH / none, shielded subsets, unknown receivers, corrupted receivers) taken through "
+            "UnifiedAddress::try_from, to_zcash_address, Address::decode; a second binary (c11nt, package vkeysnt) built "
+            "WITHOUT `transparent-inputs` decoding and re-encoding UFVK / UIVK strings that carry a transparent item; a malformed stream "
             "(mutated USK encodings and mutated un-jumbled UFVK/UIVK payloads, foreign prefixes, wrong network); every "
             "line is one executed public API call with its observed outcome; distinct = distinct lines")
     trusted_base = [
@@ -149,6 +152,8 @@ class C11(Config):
         "(real derived values obtained through the external crates' own to_bytes/from_bytes/address_at, "
         "called independently of zcash_keys); a missing table entry yields a poison value (byte 256) that "
         "can never equal an observed byte string",
+        "harness/keysnt/src/bin/c11nt.rs (second feature profile, built with -p vkeysnt so that cargo does not unify "
+        "`transparent-inputs` in) and the extra() hook of vlib/props/c11.py that merges its cases into the verdict",
         "external cryptography treated as oracles: orchard 0.15, sapling-crypto 0.7, bip32, secp256k1, zip32, "
         "bech32 (Bech32m) and f4jumble (the harness inverts both layers with the primitive crates)",
     ]
@@ -174,6 +179,36 @@ class C11(Config):
         "the fuel is not skipped' are proved, with the fuel bound 2^88 - j; that such an index exists close to j is "
         "probabilistic (Sapling diversifier validity) and not proved",
     ]
+
+    def extra(self, ctx):
+        """Second feature profile: zcash_keys WITHOUT `transparent-inputs` (its default). The binary
+        c11nt lives in its own package (harness/keysnt) and is built with `-p vkeysnt`, so cargo's
+        feature unification does not switch the feature on. Its cases go through the same Coq
+        evaluation and verdict as the main ones."""
+        from .. import core
+        from ..runner import parse_harness, classify
+        if any(p.get("kind") == "model" for p in ctx["problems"]):
+            return
+        core.log("[C11] harness (profile without transparent-inputs)")
+        ok, path, out = core.harness_build("c11nt", package="vkeysnt")
+        if not ok:
+            ctx["problems"].append({"kind": "harness", "what": "harness-build (c11nt, package vkeysnt)", "log": out[-6000:]})
+            return
+        rc, out = core.harness_run(path, self.harness_args(ctx["tier"], ctx["seed"]), timeout=self.harness_timeout)
+        cases, stats, other = parse_harness(out)
+        if rc != 0 or not cases:
+            ctx["problems"].append({"kind": "harness", "what": "harness-run (c11nt)", "log": "\n".join(other)[-6000:]})
+            return
+        res = core.eval_cases(self.pid + "-nt", self.header, self.fns, cases, shard_size=self.shard_size)
+        cl = [(c, False) for c in cases]
+        classify(self, res, cl, ctx["problems"], ctx["violations"], ctx["known_hits"])
+        ctx["cases"] += cl
+        if ctx.get("res") is not None:
+            for k, v in res.get("tags", {}).items():
+                ctx["res"]["tags"][k] = ctx["res"]["tags"].get(k, 0) + v
+        ctx["extra_evidence"] = {"profile_without_transparent_inputs": {
+            "binary": "c11nt (package vkeysnt)", "cases": len(cases), "stats": stats[:2],
+            "tag_histogram": {str(k): v for k, v in sorted(res.get("tags", {}).items())}}}
 
     @staticmethod
     def gen():
